@@ -11,6 +11,7 @@ CONSTANTS
   TracerStyles = {"none"}
   Threadeds = {FALSE}
   Givens = {"empty", "one", "blank"}
+  Blockeds = {"none"}
   Flags = {"falsy_inputs_ignored"}
 INVARIANT InputFifo
 CHECK_DEADLOCK FALSE
